@@ -162,7 +162,7 @@ PROPS["C12"] = {
                           "C12_bodyCount_runs", "C12_formula_needs_step_sign", "C12_inclusive_equal_bounds_fixed",
                           "C12_iv_edges", "C12_iv_basic_guard", "C12_iv_two_updates_rejected", "C12_iv_reverse_subtraction_rejected",
                           "C12_trip_count_sound_on_the_counters_type", "C12_narrow_counter_wrap_fixed",
-                          "C12_dominates_iff", "C12_exit_test_on_every_iteration"],
+                          "C12_dominates_iff", "C12_exit_test_on_every_iteration", "C12_narrow_computed_bound_fixed"],
     "level_text": "Kernel-checked: a header phi is summarised as an induction variable ONLY IF every edge from inside the loop carries the one integer update `phi ± step` and every outside edge the one start value (guard of classifyIV; two different updates on two back edges are rejected); a variable updated by `i += step` on every trip holds start + k*step at the k-th header evaluation, and that value modulo 2^w on w-bit integers; the model of deriveTripCount's decision chain (operator negation by exit polarity, flags, IV on either side, dead/divergent pre-checks, step-sign requirement, the six closed forms with truncated division and max(0,.)) is sound: whenever the stored trip count evaluates to a number at given argument values the loop `for i := start; i cmp limit; i += step` executes its body exactly that many times (for `!=` under termination); the same on the counter's own 8/16/32/64-bit type with wrap-around, for every count that survives the tripCountMayWrap gate. The proof attempt exposed a real defect (inclusive test with equal constant bounds), now fixed and kept as a regression theorem; the narrow-counter wrap (uint8 1..<255 step 5: annotated 51, runs 102) is kept as C12_narrow_counter_wrap_fixed. The model's dominance test (a fuel-bounded worklist search) is proved to BE dominance (C12_dominates_iff: a lies on every path from a root to b), and the condition deriveTripCount now imposes - the exiting block dominates every back edge - is proved to mean that every walk from the header to a latch, one iteration, passes the exit test (C12_exit_test_on_every_iteration). Tie: the model's loop analysis and rendered TripCount / closed forms are compared byte for byte with the real canonical IR on the corpus including 40+ generated counted loops of every form and counter type (int, uint8, int8, uint16, int32; exit test on every iteration or skipped on some); independently the REAL exported SCEV trees are evaluated at 12 argument vectors and compared with header values and body counts recorded by a natively executed instrumented twin of each loop.",
     "level_note": "PARTIAL: the link from Go SSA to the abstract counted loop (that the header phi really is updated by `+ step` on every back edge, that the exit test is the only exit) is go/ssa semantics and is validated by native execution, not proved. Trusted: Lean kernel; SCEV.eval as the reading of a SCEV tree (harness evalSCEV is its Go twin); wrap-around: the closed-form theorem is modulo 2^w; the trip-count theorem exists on unbounded Int (C12_trip_count_sound) and on the counter's own type (C12_trip_count_sound_on_the_counters_type: every count that survives tripCountMayWrap is the number of body executions with wrap-around arithmetic; for 64-bit counters with a non-constant bound under the premise that the loop ends before the counter reaches the end of its range).",
     "partial": "SSA-to-counted-loop abstraction validated by native execution, not proved; trip counts of 64-bit counters with non-constant bounds proved under a no-wrap premise",
@@ -217,6 +217,7 @@ PROPS["C03"] = {
     "trusted_base": ["the Go compiler and runtime (native execution of P and Q)", "go/ssa"],
 }
 PROPS["C04"] = {
+    "needs_sfw": True,
     "technique": "Lean 4 proof of CompareFunctions' decision logic + native execution of (old, new) pairs against the real diff status",
     "suites": [{"name": "collide", "quick": 8, "thorough": 50, "timeout": 3000}, {"name": "zipeq", "quick": 4, "thorough": 40, "timeout": 3000},
                {"name": "ssasem", "quick": 4, "thorough": 30, "timeout": 3000}],
@@ -267,3 +268,17 @@ NOT_APPLICABLE = {p: _PENDING for p in ["C%02d" % i for i in range(1, 21)] if p 
 HOOK_COMMITS = ["62f4a35bbfb762f168515cd7c5338c1c6cff78cc", "8ba54fa04b0057593bc8f1f66ad8aa6e22db7412",
                 "3d3870806691e3d1380ce61acaa03447408c434f", "ec37b7d789aa05b65a1eb90bfca12bce64489004",
                 "7108ab156ac32728b9b534ee8b8813441695f9bf"]
+
+
+# the configuration surface (Props/ConfigFacts.lean): every property carries the obligation that the
+# environment variables its code can see are the reviewed ones; `env_area` names the regenerated lists
+_ENV_AREAS = {"C01": ["envReadsAnalysis"], "C02": ["envReadsAnalysis"], "C03": ["envReadsAnalysis"], "C04": ["envReadsAnalysis"],
+              "C05": ["envReadsStorage"], "C06": ["envReadsStorage"], "C07": ["envReadsStorage"], "C08": ["envReadsStorage"],
+              "C09": ["envReadsAnalysis"], "C10": ["envReadsAnalysis", "envReadsStorage"], "C11": ["envReadsStorage"],
+              "C12": ["envReadsAnalysis"], "C13": ["envReadsAudit"], "C14": ["envReadsSandbox"], "C15": ["envReadsAnalysis"],
+              "C16": ["envReadsAnalysis", "envReadsStorage"], "C17": ["envReadsAnalysis"], "C18": ["envReadsStorage"],
+              "C19": ["envReadsAnalysis"], "C20": ["envReadsStorage"]}
+for _pid, _areas in _ENV_AREAS.items():
+    PROPS[_pid]["env_areas"] = _areas
+    PROPS[_pid].setdefault("lean_modules", []).append("SfwModel.Props.ConfigFacts")
+    PROPS[_pid].setdefault("required_theorems", []).append(_pid + "_env_reads_reviewed")
